@@ -109,7 +109,11 @@ fn ip_from(v: &Value) -> IpAddr {
     if b[0] == 4 {
         IpAddr::V4(Ipv4Addr::new(b[1], b[2], b[3], b[4]))
     } else {
-        IpAddr::V6(Ipv6Addr::new(0, 0, 0, 0, 0, 0, 0, b[1] as u16))
+        {
+            let mut o = [0u8; 16];
+            o.copy_from_slice(&b[1..17]);
+            IpAddr::V6(Ipv6Addr::from(o))
+        }
     }
 }
 
